@@ -55,6 +55,38 @@ let expr_of_fields (head : string) (parts : string) : expr =
     List.map (fun p -> ((p.[0] = '^'), atom_of_field (String.sub p 1 (String.length p - 1)))) (split_on ';' parts) in
   (atom_of_field head, ps)
 
+(* ---- events: T:time:ch:v1:v2:v3:data joined by ';', tracks joined by '/' ---- *)
+let etype_of_code = function
+  | "N" -> NoteOn | "F" -> NoteOff | "C" -> ControllChange | "P" -> PitchBend | "R" -> PitchBendRange
+  | "V" -> Voice | "M" -> Meta | "S" -> SysEx | _ -> DirectSMF
+let event_of_field (f : string) : event =
+  match String.split_on_char ':' f with
+  | [t; time; ch; v1; v2; v3; d] ->
+      let data = if d = "-" then None else if d = "e" then Some [] else Some (bytes_of_field d) in
+      { e_type = etype_of_code t; e_time = z_of_string time; e_ch = z_of_string ch; e_v1 = z_of_string v1;
+        e_v2 = z_of_string v2; e_v3 = z_of_string v3; e_data = data }
+  | _ -> raise (Bad ("event:" ^ f))
+let events_of_field (f : string) : event list = if f = "-" then [] else List.map event_of_field (split_on ';' f)
+let tracks_of_field (f : string) : event list list = List.map events_of_field (String.split_on_char '/' f)
+
+let string_of_msg (m : msg) : string =
+  let z = string_of_z in
+  match m with
+  | MNoteOff (c, k, v) -> Printf.sprintf "NoteOff(%s,%s,%s)" (z c) (z k) (z v)
+  | MNoteOn (c, k, v) -> Printf.sprintf "NoteOn(%s,%s,%s)" (z c) (z k) (z v)
+  | MPolyAT (c, k, v) -> Printf.sprintf "PolyAT(%s,%s,%s)" (z c) (z k) (z v)
+  | MCC (c, k, v) -> Printf.sprintf "CC(%s,%s,%s)" (z c) (z k) (z v)
+  | MProgram (c, p) -> Printf.sprintf "Program(%s,%s)" (z c) (z p)
+  | MChanAT (c, p) -> Printf.sprintf "ChanAT(%s,%s)" (z c) (z p)
+  | MBend (c, l, h) -> Printf.sprintf "Bend(%s,%s,%s)" (z c) (z l) (z h)
+  | MMeta (t, p) -> Printf.sprintf "Meta(%s,%s)" (z t) (field_of_bytes p)
+  | MSysEx p -> Printf.sprintf "SysEx(%s)" (field_of_bytes p)
+  | MEscape p -> Printf.sprintf "Escape(%s)" (field_of_bytes p)
+let string_of_items (l : (z * msg) list) : string =
+  String.concat " " (List.map (fun (d, m) -> string_of_z d ^ ":" ^ string_of_msg m) l)
+let string_of_res (f : 'a -> string) (r : 'a res) : string =
+  match r with Ok a -> f a | Panic s -> "PANIC" | OutOfFuel -> "OUTOFFUEL" | Unsupported w -> "UNSUPPORTED:" ^ string_of_z w
+
 let dispatch (fields : string list) : string =
   match fields with
   | ["calc_length"; s; tb; d] ->
@@ -69,6 +101,31 @@ let dispatch (fields : string list) : string =
   | ["get_note_length"; s] ->
       let ((t, r), ln) = get_note_length (text_of_field s) Z0 in
       field_of_text t ^ "\t" ^ string_of_int (List.length r) ^ "\t" ^ string_of_z ln
+  | ["generate"; tb; tracks] ->
+      string_of_res field_of_bytes (generate (z_of_string tb) (tracks_of_field tracks))
+  | ["container"; bytes] ->
+      (* spec oracle: strict container parse; prints format, ntrks, division, number of chunks *)
+      let bs = bytes_of_field bytes in
+      (match parse_file bs with
+       | None -> "NOPARSE"
+       | Some (h, chunks) ->
+           Printf.sprintf "%s\t%s\t%s\t%s\t%d\t%s" (if container_ok bs then "OK" else "BAD")
+             (string_of_z h.h_format) (string_of_z h.h_ntrks) (string_of_z h.h_division) (List.length chunks)
+             (String.concat "/" (List.map field_of_bytes chunks)))
+  | ["track_oracle"; events; body] ->
+      (* spec oracle for one track: decode the body and compare with what the event list denotes *)
+      let evs = normalize_and_sort (events_of_field events) in
+      if not (List.for_all event_ok evs) then "EXCLUDED" else
+      let want = app (wire Z0 evs) [eOTmsg] in
+      if not (deltas_ok want) then "EXCLUDED-DELTA" else
+      (match decode_track (bytes_of_field body) with
+       | None -> "DECODE-FAIL\t" ^ string_of_items want
+       | Some got -> if got = want then "OK\t" ^ string_of_int (List.length got)
+                     else "MISMATCH\t" ^ string_of_items want ^ "\t" ^ string_of_items got)
+  | ["decode_track"; body] ->
+      (match decode_track (bytes_of_field body) with
+       | None -> "DECODE-FAIL"
+       | Some got -> string_of_items got ^ "\t" ^ String.concat "," (List.map string_of_z (abs_ticks Z0 got)))
   | k :: _ -> "UNKNOWN-KIND:" ^ k
   | [] -> "EMPTY"
 
